@@ -942,6 +942,11 @@ func (e *Engine) Explore(entry *ssa.Function, name string) *ExploreResult {
 				if e.cfg.StopOnViolation && len(out.Violations) > 0 {
 					stop = true
 				}
+				if len(out.Violations) >= 300 && !stop {
+					// plenty of counterexamples to replay: no need to finish the exploration
+					stop = true
+					out.Details["stopped early: 300 violations collected"]++
+				}
 				mu.Unlock()
 				cond.Broadcast()
 			}
